@@ -203,6 +203,8 @@ def run(tier, seed):
                  sigfn=lambda c, ev, tr: "%s|%s" % (c, ev["kind"]),
                  describe=lambda c, ev, tr: "%s: %s registry with keys %s len=%s; failing lookups %s; absent %s; expected %s" % (
                      c, ev["kind"], ev["keys"][:12], ev["len"], [x for x in ev["lookups"] if x["exc"] or x["id"] != x["key"]][:5], ev["absent"][:6], ev["expected"][:12]))
+    from .. import housekeeping
+    housekeeping.run_into(run, 40 if q else 400)
     return run.finish("TLC: every sequence of <= %d additions of overlapping / repeated / nested members to a combined registry (KeysOnce, "
                       "UnionOfMembers, FirstWins); S->I: every enumerated history performed on a real CombinedRegistry (both << and "
                       "add_registry) and compared; I->S: the five embedded registries observed exhaustively (iteration, len, every key "
